@@ -13,6 +13,20 @@ def ev(o, env, fb=None, body=None):
         if m(o):
             return v
     k = o[0]
+    if k == "named" and fb is not None:
+        cb = fb.by_path.get(o[1])
+        if cb is not None:
+            for blk in cb.blocks:
+                for st in blk["stmts"]:
+                    r = st.get("r", {})
+                    xs = [r.get("x")] if r.get("k") == "use" else (r.get("fields") or [])
+                    for x in xs:
+                        if isinstance(x, dict) and x.get("k") == "const":
+                            if "bytes" in x:
+                                return bytes(x["bytes"])
+                            if "str" in x:
+                                return x["str"]
+        raise Unknown(o)
     if k == "const":
         if isinstance(o[2], int):
             return o[2]
